@@ -366,7 +366,7 @@ func main() {
 	cases := 1500 * o.Scale
 	naiveEvery := 10
 	if o.Tier == "thorough" {
-		cases = 12000 * o.Scale
+		cases = 4000 * o.Scale
 		naiveEvery = 4
 	}
 	g := &generator{r: hx.NewRand(o.Seed)}
